@@ -114,9 +114,24 @@ pub struct Trial {
     pub delivery: u8,
 }
 
-pub fn gen_trial(seed: u64, h: u32, thorough: bool) -> Trial {
+pub const LARGE_K: [u32; 4] = [2000, 4000, 6000, 10000];
+
+pub fn band_of(k: u32) -> usize {
+    if k <= 120 {
+        0
+    } else if k <= 1000 {
+        1
+    } else {
+        2
+    }
+}
+const BAND_NAMES: [&str; 3] = ["K<=120", "121..1000", "large (2000..10000)"];
+
+pub fn gen_trial(seed: u64, h: u32, thorough: bool, large: bool) -> Trial {
     let mut r = Rng::new(seed);
-    let k = if thorough && r.chance(1, 40) {
+    let k = if large {
+        *r.pick(&LARGE_K)
+    } else if thorough && r.chance(1, 40) {
         r.range(121, 1000) as u32
     } else if r.chance(3, 4) {
         *r.pick(&K_POOL)
@@ -242,6 +257,8 @@ pub fn run_trial(t: &Trial) -> Result<bool, String> {
 struct Acc {
     n: [u64; 3],
     x: [u64; 3],
+    /// [band][h] -> (trials, failures)
+    band: [[[u64; 2]; 3]; 3],
     per_k: BTreeMap<u32, [u64; 6]>,
     per_mode: [[u64; 2]; 4],
     per_delivery: [[u64; 2]; 3],
@@ -259,25 +276,39 @@ pub fn run(ctx: &Ctx) -> i32 {
     let t0 = std::time::Instant::now();
     let thorough = !ctx.quick;
     let counts: [u64; 3] = [ctx.runs(200_000, 4_000_000), ctx.runs(600_000, 12_000_000), ctx.runs(600_000, 12_000_000)];
-    let total: u64 = counts.iter().sum();
+    // large-block band: few trials (0.1-1 s each), tested on its own so that a weakening confined to
+    // large blocks is not diluted by the small-block trials
+    let large_per_h = ctx.runs(96, 2_000);
+    let small_total: u64 = counts.iter().sum();
+    let total: u64 = small_total + 3 * large_per_h;
     let seed = ctx.seed;
     let (acc, fail) = par_fold(
         total,
         ctx.workers,
-        2048,
+        48,
         |run, acc: &mut Acc| {
-            let (h, idx) = if run < counts[0] {
-                (0u32, run)
-            } else if run < counts[0] + counts[1] {
-                (1, run - counts[0])
+            // the expensive large-block trials come first so that they spread over all workers
+            let (h, idx, large) = if run < 3 * large_per_h {
+                ((run % 3) as u32, run / 3, true)
             } else {
-                (2, run - counts[0] - counts[1])
+                let run = run - 3 * large_per_h;
+                if run < counts[0] {
+                    (0u32, run, false)
+                } else if run < counts[0] + counts[1] {
+                    (1, run - counts[0], false)
+                } else {
+                    (2, run - counts[0] - counts[1], false)
+                }
             };
-            let t = gen_trial(trial_seed(seed, h, idx), h, thorough);
+            let t = gen_trial(trial_seed(seed, h + if large { 10 } else { 0 }, idx), h, thorough, large);
             let r = run_trial(&t);
             match r {
                 Ok(ok) => {
                     acc.n[h as usize] += 1;
+                    acc.band[band_of(t.k)][h as usize][0] += 1;
+                    if !ok {
+                        acc.band[band_of(t.k)][h as usize][1] += 1;
+                    }
                     let e = acc.per_k.entry(t.k).or_insert([0; 6]);
                     e[2 * h as usize] += 1;
                     acc.per_mode[t.mode as usize][0] += 1;
@@ -306,6 +337,10 @@ pub fn run(ctx: &Ctx) -> i32 {
             for i in 0..3 {
                 a.n[i] += b.n[i];
                 a.x[i] += b.x[i];
+                for j in 0..3 {
+                    a.band[i][j][0] += b.band[i][j][0];
+                    a.band[i][j][1] += b.band[i][j][1];
+                }
             }
             for (k, v) in b.per_k {
                 let e = a.per_k.entry(k).or_insert([0; 6]);
@@ -375,6 +410,37 @@ pub fn run(ctx: &Ctx) -> i32 {
             });
         }
     }
+    let mut band_stats = vec![];
+    for b in 0..3usize {
+        for h in 0..3usize {
+            let (n, x) = (acc.band[b][h][0], acc.band[b][h][1]);
+            if n == 0 {
+                continue;
+            }
+            let tail = binom_tail_ge(n, x, BOUNDS[h]);
+            band_stats.push(json!({"band": BAND_NAMES[b], "h": h, "trials": n, "failures": x, "p_value_against_bound": tail, "alarm_at_failures": alarm_threshold(n, BOUNDS[h], ALPHA)}));
+            if violations.is_empty() && tail < ALPHA {
+                violations.push(Violation {
+                    property: "C03".into(),
+                    oracle: format!("failure-rate-h{h}-band{b}"),
+                    signature: format!("stat:h={h}:band={}", BAND_NAMES[b]),
+                    seed: ctx.seed,
+                    run: 0,
+                    engine: "trial",
+                    observed: format!(
+                        "block sizes {}: {x} failures in {n} trials at K+{h} symbols (rate {:.3e}); P[>= that | p = {}] = {:.2e} < {:.0e}: the advertised bound is refuted for this band",
+                        BAND_NAMES[b],
+                        x as f64 / n as f64,
+                        BOUNDS[h],
+                        tail,
+                        ALPHA
+                    ),
+                    scenario: json!({"kind": "batch", "h": h, "band": BAND_NAMES[b], "trials": n, "failures": x, "tier": ctx.tier(), "seed": ctx.seed, "scale": ctx.scale}),
+                    minimised_from: None,
+                });
+            }
+        }
+    }
     let ratios = {
         let p = |h: usize| if acc.n[h] > 0 { acc.x[h] as f64 / acc.n[h] as f64 } else { f64::NAN };
         json!({"p0_over_p1": if acc.x[1] > 0 { json!(p(0) / p(1)) } else { json!(null) }, "p1_over_p2": if acc.x[2] > 0 { json!(p(1) / p(2)) } else { json!("no failure at h=2 observed") }})
@@ -391,10 +457,11 @@ pub fn run(ctx: &Ctx) -> i32 {
             level: "exploration",
             evaluations: acc.n.iter().sum(),
             distinct_nontrivial: acc.states.len() as u64,
-            rule: "one evaluation = one decoding trial: a seeded set of exactly K+h distinct encoding symbols (uniform over all 2^24 ids, or a channel mixture of surviving source symbols topped up with uniformly drawn repair ids; never the trivial all-source set) handed to a fresh SourceBlockDecoder in one call, one call per symbol, or K at once and the rest one by one; failure = no call answered. Decision: exact binomial test of the pooled failure count against the advertised bound at alpha = 1e-9. distinct_nontrivial = distinct (K, h, symbol set) trials".into(),
+            rule: "one evaluation = one decoding trial: a seeded set of exactly K+h distinct encoding symbols (uniform over all 2^24 ids, or a channel mixture of surviving source symbols topped up with uniformly drawn repair ids; never the trivial all-source set) handed to a fresh SourceBlockDecoder in one call, one call per symbol, or K at once and the rest one by one; failure = no call answered. Decision: exact binomial tests of the failure counts, pooled and per block-size band (K<=120, 121..1000, large blocks 2000..10000), against the advertised bounds at alpha = 1e-9 each. distinct_nontrivial = distinct (K, h, symbol set) trials".into(),
             samples: acc.samples.clone(),
             extra: json!({
                 "per_overhead": stats,
+                "per_block_size_band": band_stats,
                 "ratios": ratios,
                 "highest_failure_rate_block_sizes_h0": worst_k,
                 "per_mode": (0..4).map(|m| json!({"mode": MODE_NAMES[m], "trials": acc.per_mode[m][0], "failures": acc.per_mode[m][1]})).collect::<Vec<_>>(),
